@@ -128,7 +128,9 @@ def step_maps(spec):
     for k, r0 in enumerate((20, 50, 80)):
         sgn = -1.0 if k == 2 else 1.0
         img += sgn * (g(6.0, r0, 56.5) + g(7.0, r0, 62.0))
-    for (amp, r0, c0) in ((12.0, 15, 20.0), (9.0, 100, 30.0), (15.0, 40, 95.0), (-14.0, 100, 100.0), (8.0, 105, 62.0)):
+    for (amp, r0, c0) in ((12.0, 15, 20.0), (9.0, 100, 30.0), (15.0, 40, 95.0), (-14.0, 100, 100.0), (8.0, 105, 62.0),
+                          (7.0, 60, 22.0), (-11.0, 64, 22.0),          # positive source on a deeper negative bowl, 4 rows apart
+                          (13.0, 62, 100.0), (-9.0, 66, 100.0)):       # ... and on a shallower one
         img += g(amp, r0, c0)
     rms = np.ones((n, n))
     rms[:, 60:] = 1.45
@@ -162,6 +164,17 @@ def build_image(spec):
         n = 120
         img, _, _ = step_maps(spec)
         return img, n
+    if spec['kind'] == 'mixed':   # mixed-sign islands (islands are flooded on |SNR|): a positive source touching a DEEPER
+        # negative bowl, a positive source touching a SHALLOWER negative bowl, the same two along the other axis, an
+        # all-negative blend and two ordinary sources
+        n = 120
+        srcs = [(30.0, 30.0, 5.0, 1.7, 1.7, 0.0), (33.0, 30.0, -8.0, 1.7, 1.7, 0.0),
+                (30.0, 80.0, 8.0, 1.7, 1.7, 0.0), (33.2, 80.0, -5.0, 1.7, 1.7, 0.0),
+                (80.0, 30.0, 4.0, 1.8, 1.5, 20.0), (80.0, 33.5, -9.0, 1.8, 1.5, 70.0),
+                (80.0, 80.0, -6.0, 1.7, 1.7, 0.0), (80.0, 76.5, 7.5, 1.7, 1.7, 0.0),
+                (100.0, 55.0, -6.0, 2.0, 1.5, 10.0), (104.5, 57.0, -3.0, 1.8, 1.4, 60.0),
+                (15.0, 100.0, 3.0, 1.7, 1.5, 0.0), (55.0, 55.0, -4.0, 1.7, 1.5, 45.0)]
+        return (render(n, srcs) * spec.get('scale', 1.0)).astype(np.float32), n
     if spec['kind'] == 'pair':    # one positive, one negative, one negative blend, asymmetric so that argmax != argmin pixel
         srcs = [(20.3, 30.6, 5.0, 2.2, 1.5, 25.0), (55.7, 24.2, -4.0, 2.4, 1.4, -35.0),
                 (30.0, 60.0, -6.0, 2.0, 1.5, 10.0), (35.5, 63.0, -3.0, 1.8, 1.4, 60.0)]
@@ -180,6 +193,13 @@ def build_image(spec):
             if u < 0.18:     # a tiny island of 1..6 pixels
                 npx = int(rng.integers(1, 7))
                 tiny.append((int(cx), int(cy), npx, sign * rng.uniform(0.6, 2.0)))
+            elif u < 0.47 and u >= 0.40:   # a mixed-sign island: positive source touching a negative bowl (either deeper or shallower)
+                deep = rng.uniform() < 0.5
+                ang = rng.uniform(0, 2 * np.pi)
+                pos_amp = rng.uniform(3, 6)
+                neg_amp = -pos_amp * (1.6 if deep else 0.6)
+                srcs.append((cx, cy, pos_amp, 1.7, 1.6, rng.uniform(-90, 90)))
+                srcs.append((cx + 3.2 * np.cos(ang), cy + 3.2 * np.sin(ang), neg_amp, 1.7, 1.6, rng.uniform(-90, 90)))
             elif u < 0.40:   # a blend of two or three components
                 m = 2 if rng.uniform() < 0.7 else 3
                 for q in range(m):
@@ -689,6 +709,17 @@ def judge_blind(J, out, rec, sf, opts, label, truth=None):
                         return None
                     return float(idata[ax - x0_, ay - y0_])
                 here = val(ix, iy)
+                vals_ = idata[np.isfinite(idata)]
+                if vals_.size and vals_.max() > 0 > vals_.min():
+                    ctx.count('island-rows-mixed-sign' + ('-negative-deeper' if -vals_.min() > vals_.max() else '-positive-higher'))
+                if m_px != 'none':
+                    # background and local_rms are those of the pixel that holds peak_flux (maps as loaded by the finder)
+                    gd = sf.global_data
+                    wb, wr = gd.bkgimg[int(m_px), int(m_py)], gd.rmsimg[int(m_px), int(m_py)]
+                    if F(float(isl.background)) != F(float(wb)) or F(float(isl.local_rms)) != F(float(wr)):
+                        J.fail('spec', f"{label}: island row {isl.island}: background={float(isl.background)!r} local_rms={float(isl.local_rms)!r}, "
+                               f"but the background / rms maps at the peak pixel ({m_px},{m_py}) hold {float(wb)!r} / {float(wr)!r}",
+                               dict(site='island-row', clause='background-rms-at-peak'), dict(island=int(isl.island)))
                 if here is not None and F(here) == F(float(isl.peak_flux)) and m_px != 'none' and (ix, iy) == (int(m_px), int(m_py)):
                     return
                 up = val(None if ix is None else ix + 1, None if iy is None else iy + 1)
@@ -700,7 +731,8 @@ def judge_blind(J, out, rec, sf, opts, label, truth=None):
                        f"dec={isl.dec!r} = array pixel ({ix},{iy}), whose value is {here!r}; the detected pixel holding peak_flux is "
                        f"({m_px},{m_py}) [{off}]",
                        dict(site='island-row', clause='peak-position', offset=off,
-                            **({'negative_island': bool(float(isl.peak_flux) < 0)} if off == 'other' else {})),
+                            **({'negative_island': bool(float(isl.peak_flux) < 0),
+                                'mixed_sign': bool(vals_.size and vals_.max() > 0 > vals_.min())} if off == 'other' else {})),
                        dict(island=int(isl.island)))
 
             def hs(o, isl=isl, f=f, ncomp_rows=ncomp_rows, npx=len(xs), idata=idata):
@@ -1484,6 +1516,8 @@ def run(ctx):
     # an all-negative and a positive island with island rows (peak pixel of a negative island = its minimum)
     scenario_blind(ctx, 'neg-island', dict(kind='pair', seed=0, nside=2), dict(rms=0.05, bkg=0.0, doislandflux=True), rerun=False,
                    debug=True)
+    # mixed-sign islands (positive source touching a deeper / shallower negative bowl, both axes) and an all-negative blend
+    scenario_blind(ctx, 'mixed-island', dict(kind='mixed', seed=0, nside=3), dict(rms=0.05, bkg=0.0, doislandflux=True), rerun=False)
     # the same with CRVAL1 = -10 (wcslib then reports longitudes in (-360, 0]) and CRVAL1 = 370
     for ra0 in (-10.0, 370.0):
         scenario_blind(ctx, f'neg-island-crval{int(ra0)}', dict(kind='pair', seed=0, nside=2, ra0=ra0),
